@@ -143,7 +143,8 @@ func (f *out) Send(bt []byte) error {
 		return drivers.ErrPortClosed
 	}
 
-	if f.stopListening {
+	// nobody is listening (yet): the message is dropped
+	if f.stopListening || f.rd == nil {
 		return nil
 	}
 
